@@ -112,6 +112,15 @@ DeadKeys(st) == {k \in K : Dead(st, k)}
 C03_AsAbsent ==
     [][IsOp /\ a.op \notin {"EstimatedSize", "WeightedSize", "InvalidateAll"}
          => Outs(o) = Outs(Step(Purge(s, DeadKeys(s)), a).o)]_vars
+\* ... and leaves the same live contents behind: value, weight, expiration and refresh deadline of every live entry after
+\* the operation do not depend on whether the dead entries had been swept before it (C01 "an abstract map whose entries
+\* carry an expiration deadline", C11 "reads of fresh entries trigger nothing", C12 "likewise for the refresh time").
+\* Violated by the model of the code as found (F21: a write over an expired-unswept entry inherited the dead node's
+\* deadlines and consulted the refresh calculator's update hook).
+LiveProj(st) == [k \in K |-> IF Live(st, k) THEN <<st.ent[k].v, st.ent[k].w, st.ent[k].exp, st.ent[k].ref>> ELSE <<>>]
+After(st, x) == LET r == Step(st, x) IN RunAll(r.s, r.o.mw, <<>>).s
+C03_SweepIndependent ==
+    [][IsOp /\ a.op \notin {"InvalidateAll"} => LiveProj(s') = LiveProj(After(Purge(s, DeadKeys(s)), a))]_vars
 \* ... and nothing but a new write or a completed load makes the key visible again
 C03_NoResurrection ==
     [][\A k \in K : Dead(s, k) /\ Live(s', k) => (IsOp /\ k \in PutKeys)]_vars
